@@ -763,3 +763,81 @@ theorem acyclicB_withRb (p : Program) (x : Option Nat) : acyclicB (withRb p x) =
   simp only [acyclicB, hc, loopsM, bound_withRb, pairResult_withRb]
 
 end C05
+
+namespace C05
+
+/-! ## The typed machine refines the untyped one -/
+
+theorem emitT_erase (x : El × Bool) : (emitT x).map TGlyph.erase = x.1.emit := by
+  obtain ⟨e, b⟩ := x
+  cases e <;> rfl
+
+theorem flatMap_emitT_erase (l : List (El × Bool)) :
+    (l.flatMap emitT).map TGlyph.erase = (l.map Prod.fst).flatMap El.emit := by
+  induction l with
+  | nil => rfl
+  | cons x t ih => simp [List.flatMap_cons, emitT_erase, ih]
+
+theorem interpT_erase (p : Program) : ∀ (f : Nat) (s : List (El × Bool)),
+    (interpT p f s).map (List.map TGlyph.erase) = interp p f (s.map Prod.fst) := by
+  intro f
+  induction f with
+  | zero => intro s; rfl
+  | succ f ih =>
+    intro s
+    match s with
+    | [] => rfl
+    | [x] => simp [interpT, interp, emitT_erase]
+    | x :: y :: tail =>
+      obtain ⟨e, b⟩ := x
+      obtain ⟨e', b'⟩ := y
+      cases e with
+      | rb => simp [interpT, interp]
+      | lb =>
+        simp only [interpT, interp, List.map_cons]
+        cases hl : (match e' with | .ch c => some c | .rb => p.rb | .lb => none : Option Nat).bind (specRule p (El.lb).left) with
+        | none =>
+          have := ih ((e', b') :: tail)
+          simp only [List.map_cons] at this
+          simp [← this, Option.map_map, Function.comp_def, emitT_erase]
+        | some op =>
+          cases op with
+          | kern k =>
+            have := ih ((e', b') :: tail)
+            simp only [List.map_cons] at this
+            simp [← this, Option.map_map, Function.comp_def, emitT_erase, TGlyph.erase]
+          | lig z post =>
+            simp only []
+            generalize hT : (((if post.abc.2.1 = true then [((El.lb), b)] else []) ++ [(El.ch z, true)] ++
+              if post.abc.2.2 = true then [(e', b')] else []) ++ tail) = T
+            have hU : (((if post.abc.2.1 = true then [El.lb] else []) ++ [El.ch z] ++
+                if post.abc.2.2 = true then [e'] else []) ++ List.map Prod.fst tail) = T.map Prod.fst := by
+              subst hT
+              cases post.abc.2.1 <;> cases post.abc.2.2 <;> simp
+            rw [hU, ← List.map_drop, ← ih, ← List.map_take, ← flatMap_emitT_erase]
+            simp [Option.map_map, Function.comp_def]
+      | ch c =>
+        simp only [interpT, interp, List.map_cons]
+        cases hl : (match e' with | .ch c => some c | .rb => p.rb | .lb => none : Option Nat).bind (specRule p (El.ch c).left) with
+        | none =>
+          have := ih ((e', b') :: tail)
+          simp only [List.map_cons] at this
+          simp [← this, Option.map_map, Function.comp_def, emitT_erase]
+        | some op =>
+          cases op with
+          | kern k =>
+            have := ih ((e', b') :: tail)
+            simp only [List.map_cons] at this
+            simp [← this, Option.map_map, Function.comp_def, emitT_erase, TGlyph.erase]
+          | lig z post =>
+            simp only []
+            generalize hT : (((if post.abc.2.1 = true then [((El.ch c), b)] else []) ++ [(El.ch z, true)] ++
+              if post.abc.2.2 = true then [(e', b')] else []) ++ tail) = T
+            have hU : (((if post.abc.2.1 = true then [El.ch c] else []) ++ [El.ch z] ++
+                if post.abc.2.2 = true then [e'] else []) ++ List.map Prod.fst tail) = T.map Prod.fst := by
+              subst hT
+              cases post.abc.2.1 <;> cases post.abc.2.2 <;> simp
+            rw [hU, ← List.map_drop, ← ih, ← List.map_take, ← flatMap_emitT_erase]
+            simp [Option.map_map, Function.comp_def]
+
+end C05
